@@ -246,3 +246,14 @@ Definition lpfile_eqb (a b : lpfile) : bool :=
            match snd x, snd y with None, None => true | Some (l1, h1), Some (l2, h2) => bnd_eqb l1 l2 && bnd_eqb h1 h2 | _, _ => false end)
           (pf_bounds a) (pf_bounds b)
   && leqb String.eqb (pf_binary a) (pf_binary b) && leqb String.eqb (pf_general a) (pf_general b).
+
+(* ---------- admissible input (the premise of the C17 round-trip theorem): names are not relation, sign or section
+   words; Real / NonNegativeReal bounds are not NaN *)
+Definition name_ok (v : string) : bool := negb (is_op v || is_sign v).
+Definition word_ok (v : string) : bool := name_ok v && negb (is_section v).
+Definition bound_ok (x : xq) : bool := match x with NaN => false | _ => true end.
+Definition dom_entry_ok (p : string * vtype) : bool :=
+  word_ok (fst p) &&
+  match snd p with TNonNegativeReal lo hi | TReal lo hi => bound_ok lo && bound_ok hi | _ => true end.
+Definition lp_okb (L : linmodel) : bool := forallb word_ok (lm_vars L) && forallb dom_entry_ok (lm_domain L).
+
